@@ -20,7 +20,7 @@ func refShard(name string, n int) int {
 		h ^= uint32(name[i])
 		h *= 16777619
 	}
-	return int(h % uint32(n))
+	return int(uint64(h) % uint64(n)) // in 64 bits: N may exceed 2^32
 }
 
 func TestCheck(t *testing.T) {
@@ -43,6 +43,7 @@ func TestCheck(t *testing.T) {
 			"leader table, refusals and ServerInfo().Endpoints must name the lease holder, in whichever order client-go delivered OnNewLeader and OnStoppedLeading (both orders are counted); " +
 			"(3e) leadership changes (callback and table+leaderCheck) from one goroutine while six others call allocate / acquire / the cluster handler: calls that saw the same stable per-shard state word before and after are judged " +
 			"(inside a gap: refused, naming the leader), overlapping ones are counted; at quiescence a shard that is not led has no store; " +
+			"(3f) k8s store, cleanups in the window between a table-only loss and leaderCheck: the asynchronous timeout pass (awaited through the log sink) and the slow pass with a cluster gone from the lister must not delete the lost shard's conditions from the API; " +
 			"(4) k8s store over the generated fake clientset: Save of a foreign-shard condition refused (nothing written to the API or kept locally), Load keeps only own-shard conditions. " +
 			"Non-trivial = names/histories that exercise a refusal or a leadership change; distinct = hash of the name+N resp. of the history trace.")
 		r.Assume("between an election loss and the next leaderCheck the lost shard's store still exists; removing things from it (cleanup passes) is conforming (the statement demands the discard), writing into it is not")
@@ -86,6 +87,15 @@ func TestCheck(t *testing.T) {
 				realTakeoverScenario(r, tr, 60)
 			}()
 		}
+		nWin := r.N(3, 20)
+		winRng := r.Rng.Fork("cleanup-window")
+		wg.Add(1)
+		go func() { // part 3f: the periodic cleanups between an election loss and the discard of the store (k8s store)
+			defer wg.Done()
+			for k := 0; k < nWin; k++ { // one after the other: they share the log sink's watch
+				cleanupInTheWindow(r, winRng.Fork(fmt.Sprint(k)))
+			}
+		}()
 		wg.Add(1)
 		ccRng := r.Rng.Fork("concurrent-server")
 		go func() { // part 3e: leadership changes concurrent with calls
@@ -118,7 +128,7 @@ func TestCheck(t *testing.T) {
 			wg2.Wait()
 			r.Count("real_takeover_extra_rounds", 1)
 		}
-		r.Require(r.Counter("shardfn_cases") >= 100000, "too few shard-function cases")
+		r.Require(r.Counter("shardfn_cases") >= 100000 && r.Counter("shardfn_cases_N_beyond_31_bits") >= 1000, "too few shard-function cases")
 		r.Require(r.Counter("gw_requests_judged") >= 100, "gateway side judged too few requests")
 		r.Require(r.Counter("gw_moves_converged") >= 1, "gateway side saw no leadership move converge")
 		r.Require(r.Counter("gw_odd_names_judged") >= 50 && r.Counter("gw_second_gateway_names_judged") >= 100 && r.Counter("gw_shard_count_one") >= 1, "gateway side: odd names / second gateway / single-shard fleet were not exercised")
@@ -132,6 +142,7 @@ func TestCheck(t *testing.T) {
 		r.Require(r.Counter("conc_scenarios") >= 1 && r.Counter("conc_leadership_changes") >= 400 && r.Counter("conc_calls_judged_inside_a_gap") >= 200 && r.Counter("conc_calls_served_inside_a_term") >= 200 && r.Counter("conc_calls_overlapping_a_change") >= 1,
 			"the concurrent server-side scenario judged too few calls / saw too few overlaps")
 		r.Require(r.Counter("srv_regain_load_failed_store_dropped") >= 1 && r.Counter("srv_regain_after_load_failure") >= 1, "the regain-with-failing-Load path was not exercised")
+		r.Require(r.Violations() > 0 || (r.Counter("async_cleanup_scenarios") >= 3 && r.Counter("async_cleanup_deleted_in_led_shard") >= 3), "the cleanup-in-the-window scenario (k8s store) did not complete / did not see the led shard cleaned")
 		r.Require(r.Counter("srv_flushfail_scenarios") >= 1 && r.Counter("srv_flushfail_conditions_compared_with_api") >= 1, "the flush-failure scenario (k8s store) did not complete")
 		r.Require(r.Counter("srv_refusals_judged") >= 1000, "server side judged too few not-leader calls")
 		r.Require(r.Counter("srv_served_allocate") >= 300 && r.Counter("srv_served_acquire_accepted") >= 300, "server side served too few calls while leading")
@@ -171,6 +182,9 @@ func genName(g *vkit.Rand) string {
 }
 
 func genN(g *vkit.Rand) int {
+	if g.Chance(0.03) { // "every shard count N >= 1": also counts that do not fit 32 bits (an int flag on a 64-bit machine)
+		return []int{1 << 31, 1<<32 - 1, 1 << 32, 1<<32 + 5, 1 << 40, 1<<63 - 1}[g.Intn(6)]
+	}
 	switch g.Intn(4) {
 	case 0:
 		return g.Range(1, 8)
@@ -194,6 +208,9 @@ func shardFn(r *vkit.R) {
 				hs = append(hs, vkit.Hash64(name, fmt.Sprint(N)))
 			}
 			wit := map[string]interface{}{"name": fmt.Sprintf("%q", trunc(name)), "nameLen": len(name), "N": N, "GetShardID": a, "again": b, "fnv1a32modN": ref}
+			if N >= 1<<31 {
+				r.Count("shardfn_cases_N_beyond_31_bits", 1)
+			}
 			switch {
 			case p != nil:
 				r.Violation("C13/shard-fn/panic", fmt.Sprintf("GetShardID(%q, %d) panicked: %v", trunc(name), N, p), wit)
